@@ -907,3 +907,102 @@ Proof.
       eapply phase1_frame; [exact Fr | exact P|].
       intros x Hx T. apply HL. eapply Cov; eassumption.
 Qed.
+
+(* ================= truthfulness, failures, faults ================= *)
+Lemma plain_error_not_ok : status_plain_error <> status_ok.
+Proof. discriminate. Qed.
+Lemma error_status_plain : error_status = status_plain_error.
+Proof. reflexivity. Qed.
+
+(* a delivery whose fault fired changed nothing, reported a failure and cleaned
+   up; one whose fault did not fire is the clean delivery *)
+Lemma fired_or_clean cfg f d x :
+  let r := rollback_branch cfg f d x in
+  (r_fired r = true /\ r_db r = d /\ r_out r <> status_ok /\ r_tx_open r = false /\ r_conn_released r = true) \/
+  (r_fired r = false /\ r_db r = r_db (rollback_branch cfg None d x) /\
+   r_out r = r_out (rollback_branch cfg None d x) /\ r_tx_open r = r_tx_open (rollback_branch cfg None d x)).
+Proof.
+  unfold rollback_branch. destruct (undo_plan cfg d x) as [[plan ok] ops].
+  destruct (fires f ops) eqn:F.
+  - left. cbn. repeat split; auto.
+    + destruct f as [k|]; [|discriminate F].
+      change undo_commit_error_returned with true. cbn [negb]. rewrite andb_false_r. discriminate.
+    + destruct f as [[|k]|]; reflexivity.
+  - right. cbn. auto.
+Qed.
+
+Lemma clean_cases cfg d x :
+  let r := rollback_branch cfg None d x in
+  (r_out r = status_ok /\ no_normal x (r_db r) /\ r_tx_open r = false /\
+   (forall y, y <> x -> ulookup y (d_undo (r_db r)) = ulookup y (d_undo d))) \/
+  (r_out r = status_plain_error /\ r_db r = d /\ r_tx_open r = false).
+Proof.
+  destruct (ulookup x (d_undo d)) as [row|] eqn:U.
+  - destruct (u_normal row) eqn:N.
+    + destruct (u_body row) as [imgs|] eqn:B.
+      * destruct (undo_images (c_validation cfg) (rev imgs) (d_tabs d)) as [tabs'|] eqn:UI.
+        -- destruct (rollback_clean_normal cfg d x row imgs tabs' U N B UI) as [E1 [E2 [E3 E4]]].
+           left. cbn zeta. rewrite E1, E2, E4. repeat split; auto.
+           ++ unfold no_normal. cbn. rewrite ulookup_uremove, ukey_eqb_refl. exact I.
+           ++ intros y Hn. cbn. rewrite ulookup_uremove. apply ukey_eqb_false in Hn. now rewrite Hn.
+        -- destruct (rollback_clean_failed cfg d x row imgs U N B UI) as [E1 [E2 [E3 E4]]].
+           right. cbn zeta. rewrite E1, E2, E4. auto.
+      * right. unfold rollback_branch, undo_plan. rewrite U, N, B. cbn. auto.
+    + left. rewrite (rollback_clean_finished cfg d x row U N). cbn. repeat split; auto.
+      unfold no_normal. now rewrite U.
+  - left. rewrite (rollback_clean_marker cfg d x U). cbn. repeat split; auto.
+    + unfold no_normal. cbn. now rewrite ukey_eqb_refl.
+    + intros y Hn. apply ukey_eqb_false in Hn. now rewrite Hn.
+Qed.
+
+(* C01: 'rollbacked' is only answered when the clean undo really happened *)
+Theorem truthful cfg f d x :
+  let r := rollback_branch cfg f d x in
+  r_out r = status_ok ->
+  r_fired r = false /\ r_db r = r_db (rollback_branch cfg None d x) /\
+  no_normal x (r_db r) /\ r_tx_open r = false.
+Proof.
+  cbn zeta. intro H.
+  destruct (fired_or_clean cfg f d x) as [[_ [_ [Hn _]]]|[F [E1 [E2 E3]]]]; [contradiction|].
+  rewrite E1, E3. rewrite E2 in H.
+  destruct (clean_cases cfg d x) as [[_ [N [T _]]]|[O _]].
+  - auto.
+  - rewrite O in H. discriminate.
+Qed.
+
+(* C01: every way the undo can fail is reported, and nothing is changed *)
+Theorem failure_reported cfg f d x :
+  let r := rollback_branch cfg f d x in
+  (r_fired r = true -> r_out r <> status_ok /\ r_db r = d) /\
+  (forall row, ulookup x (d_undo d) = Some row -> u_normal row = true ->
+     (u_body row = None \/
+      exists imgs, u_body row = Some imgs /\ undo_images (c_validation cfg) (rev imgs) (d_tabs d) = None) ->
+     r_out r <> status_ok /\ r_db r = d).
+Proof.
+  cbn zeta. split.
+  - intro F. destruct (fired_or_clean cfg f d x) as [[_ [E [Hn _]]]|[F' _]]; [auto | congruence].
+  - intros row U N Bad.
+    assert (C : r_out (rollback_branch cfg None d x) = status_plain_error /\ r_db (rollback_branch cfg None d x) = d).
+    { destruct Bad as [B|[imgs [B I]]].
+      - unfold rollback_branch, undo_plan. rewrite U, N, B. cbn. auto.
+      - destruct (rollback_clean_failed cfg d x row imgs U N B I) as [E1 [E2 _]]. auto. }
+    destruct C as [C1 C2].
+    destruct (fired_or_clean cfg f d x) as [[_ [E [Hn _]]]|[_ [E1 [E2 _]]]]; [auto|].
+    rewrite E1, E2, C1, C2. split; [discriminate | reflexivity].
+Qed.
+
+Lemma undo_plan_ops_ge3 cfg d x : (3 <= snd (undo_plan cfg d x))%nat.
+Proof.
+  unfold undo_plan. destruct (ulookup x (d_undo d)) as [row|]; [|cbn; lia].
+  destruct (negb (u_normal row)); [cbn; lia|].
+  destruct (u_body row) as [imgs|]; [|cbn; lia].
+  destruct (is_nil imgs && undo_empty_log_returns_early); [cbn; lia|].
+  destruct (undo_images (c_validation cfg) (order_log imgs) (d_tabs d)); cbn; lia.
+Qed.
+
+Lemma fault_zero_fires cfg d x : r_fired (rollback_branch cfg (Some 0%nat) d x) = true.
+Proof.
+  unfold rollback_branch. pose proof (undo_plan_ops_ge3 cfg d x) as H.
+  destruct (undo_plan cfg d x) as [[plan ok] ops]. cbn in H.
+  destruct ops as [|ops]; [lia|]. reflexivity.
+Qed.
